@@ -127,4 +127,638 @@ end
 theorem serdeValue_null {v : JVal} (h : serdeValue v = .null) : v = .null := by
   cases v <;> simp [serdeValue] at h ⊢
 
+/-! ### The struct case -/
+
+theorem absentOut_emit {req : Bool} {dflt : Option JVal} {d : JVal} :
+    absentOut req dflt = .emit d ↔ req = false ∧ dflt = some d := by
+  unfold absentOut
+  cases req <;> cases dflt <;> simp
+
+theorem absentOut_omit {req : Bool} {dflt : Option JVal} :
+    absentOut req dflt = .nothing ↔ req = false ∧ dflt = none := by
+  unfold absentOut
+  cases req <;> cases dflt <;> simp
+
+def outs (fs : List Field) (o : Obj) : List (Str × Out) := fs.map (fun f => (f.name, outOf f (f.look o)))
+
+theorem project_obj' (fields : List Field) (keep : Bool) (o : Obj) :
+    project (.obj fields keep) (.obj o) =
+      match collect (outs fields o) with
+      | some out => some (.obj (out ++ (if keep then Obj.ofList (serdeValueO (o.filter (fun e => !known fields e.1))) else [])))
+      | none => none := project_obj fields keep o
+
+theorem collect_mem : ∀ {l : List (Str × Out)} {out : Obj}, collect l = some out →
+    ∀ e ∈ out, (e.1, Out.emit e.2) ∈ l
+  | [], out, h, e, he => by simp [collect] at h; subst h; cases he
+  | (k, .fail) :: t, out, h, e, he => by simp [collect] at h
+  | (k, .nothing) :: t, out, h, e, he => by
+    rw [collect] at h
+    exact List.mem_cons_of_mem _ (collect_mem h e he)
+  | (k, .emit v) :: t, out, h, e, he => by
+    rw [collect] at h
+    cases ht : collect t with
+    | none => rw [ht] at h; cases h
+    | some out' =>
+      rw [ht] at h
+      simp only [Option.some.injEq] at h
+      subst h
+      cases he with
+      | head => exact List.mem_cons_self ..
+      | tail _ he => exact List.mem_cons_of_mem _ (collect_mem ht e he)
+
+theorem collect_no_fail : ∀ {l : List (Str × Out)} {out : Obj}, collect l = some out →
+    ∀ p ∈ l, p.2 ≠ .fail
+  | [], _, _, p, hp => by cases hp
+  | (k, .fail) :: t, out, h, p, hp => by simp [collect] at h
+  | (k, .nothing) :: t, out, h, p, hp => by
+    rw [collect] at h
+    cases hp with
+    | head => intro e; cases e
+    | tail _ hp => exact collect_no_fail h p hp
+  | (k, .emit v) :: t, out, h, p, hp => by
+    rw [collect] at h
+    cases ht : collect t with
+    | none => rw [ht] at h; cases h
+    | some out' =>
+      cases hp with
+      | head => intro e; cases e
+      | tail _ hp => exact collect_no_fail ht p hp
+
+theorem mem_collect : ∀ {l : List (Str × Out)} {out : Obj}, collect l = some out →
+    ∀ {k : Str} {v : JVal}, (k, Out.emit v) ∈ l → (k, v) ∈ out
+  | [], _, _, _, _, hm => by cases hm
+  | (k', .fail) :: t, out, h, _, _, hm => by simp [collect] at h
+  | (k', .nothing) :: t, out, h, k, v, hm => by
+    rw [collect] at h
+    cases hm with
+    | tail _ hm => exact mem_collect h hm
+  | (k', .emit v') :: t, out, h, k, v, hm => by
+    rw [collect] at h
+    cases ht : collect t with
+    | none => rw [ht] at h; cases h
+    | some out' =>
+      rw [ht] at h
+      simp only [Option.some.injEq] at h
+      subst h
+      cases hm with
+      | head => exact List.mem_cons_self ..
+      | tail _ hm => exact List.mem_cons_of_mem _ (mem_collect ht hm)
+
+theorem spelledBy_self (f : Field) : f.spelledBy f.name = true := by
+  simp [Field.spelledBy, spells]
+
+theorem known_of_mem {fs : List Field} {f : Field} {k : Str} (hf : f ∈ fs) (h : f.spelledBy k = true) :
+    known fs k = true := List.any_eq_true.mpr ⟨f, hf, h⟩
+
+theorem mem_outs {fs : List Field} {o : Obj} {p : Str × Out} (h : p ∈ outs fs o) :
+    ∃ g ∈ fs, p = (g.name, outOf g (g.look o)) := by
+  simp only [outs, List.mem_map] at h
+  obtain ⟨g, hg, e⟩ := h
+  exact ⟨g, hg, e.symm⟩
+
+/-- Every written key is the name of a field. -/
+theorem out_key_is_name {fs : List Field} {o out : Obj} (h : collect (outs fs o) = some out) :
+    ∀ e ∈ out, ∃ g ∈ fs, g.name = e.1 ∧ outOf g (g.look o) = .emit e.2 := by
+  intro e he
+  obtain ⟨g, hg, eq⟩ := mem_outs (collect_mem h e he)
+  simp only [Prod.mk.injEq] at eq
+  exact ⟨g, hg, eq.1.symm, eq.2.symm⟩
+
+theorem filter_out_nil {fs : List Field} {o out : Obj} {n : Str} {a : List Str}
+    (h : collect (outs fs o) = some out) (hd : ∀ g ∈ fs, spells n a g.name = false) :
+    out.filter (fun e => spells n a e.1) = [] := by
+  rw [List.filter_eq_nil_iff]
+  intro e he
+  obtain ⟨g, hg, hn, _⟩ := out_key_is_name h e he
+  rw [← hn, hd g hg]; simp
+
+theorem filter_out_self : ∀ {fs : List Field} {o out : Obj}, Distinct fs → collect (outs fs o) = some out →
+    ∀ {f : Field}, f ∈ fs →
+    out.filter (fun e => f.spelledBy e.1) =
+      match outOf f (f.look o) with
+      | .emit v => [(f.name, v)]
+      | _ => []
+  | [], _, _, _, _, _, hf => by cases hf
+  | g :: fs', o, out, hd, h, f, hf => by
+    have hd' : (∀ x ∈ fs', g.spelledBy x.name = false ∧ x.spelledBy g.name = false) ∧ Distinct fs' :=
+      List.pairwise_cons.mp hd
+    simp only [outs, List.map_cons] at h
+    change collect ((g.name, outOf g (g.look o)) :: outs fs' o) = some out at h
+    cases hf with
+    | head =>
+      have hnil : ∀ out', collect (outs fs' o) = some out' → out'.filter (fun e => g.spelledBy e.1) = [] :=
+        fun out' h' => filter_out_nil (n := g.name) (a := g.aliases) h' (fun x hx => (hd'.1 x hx).1)
+      cases hg : outOf g (g.look o) with
+      | fail => rw [hg] at h; simp [collect] at h
+      | nothing => rw [hg, collect] at h; exact hnil out h
+      | emit v =>
+        rw [hg, collect] at h
+        cases ht : collect (outs fs' o) with
+        | none => rw [ht] at h; cases h
+        | some out' =>
+          rw [ht] at h
+          simp only [Option.some.injEq] at h
+          subst h
+          rw [List.filter_cons, if_pos (spelledBy_self g), hnil out' ht]
+    | tail _ hf' =>
+      have hne : f.spelledBy g.name = false := (hd'.1 f hf').2
+      cases hg : outOf g (g.look o) with
+      | fail => rw [hg] at h; simp [collect] at h
+      | nothing => rw [hg, collect] at h; exact filter_out_self hd'.2 h hf'
+      | emit v =>
+        rw [hg, collect] at h
+        cases ht : collect (outs fs' o) with
+        | none => rw [ht] at h; cases h
+        | some out' =>
+          rw [ht] at h
+          simp only [Option.some.injEq] at h
+          subst h
+          rw [List.filter_cons]
+          simp only [hne, Bool.false_eq_true, if_false]
+          exact filter_out_self hd'.2 ht hf'
+
+theorem distinct_ne : ∀ {fs : List Field}, Distinct fs → ∀ {a b : Field}, a ∈ fs → b ∈ fs → a ≠ b →
+    a.spelledBy b.name = false
+  | [], _, _, _, ha, _, _ => by cases ha
+  | g :: fs', hd, a, b, ha, hb, hab => by
+    have hd' : (∀ x ∈ fs', g.spelledBy x.name = false ∧ x.spelledBy g.name = false) ∧ Distinct fs' :=
+      List.pairwise_cons.mp hd
+    cases ha with
+    | head =>
+      cases hb with
+      | head => exact absurd rfl hab
+      | tail _ hb => exact (hd'.1 b hb).1
+    | tail _ ha =>
+      cases hb with
+      | head => exact (hd'.1 a ha).2
+      | tail _ hb => exact distinct_ne hd'.2 ha hb hab
+
+theorem look_append (f : Field) (a b : Obj) :
+    f.look (a ++ b) = pick (a.filter (fun e => f.spelledBy e.1) ++ b.filter (fun e => f.spelledBy e.1)) := by
+  simp only [Field.look, look, List.filter_append]; rfl
+
+theorem outOf_ghost {f : Field} (h : f.ghost = true) (l : Look) : outOf f l = absentOut f.req f.dflt := by
+  simp [outOf, h]
+theorem outOf_absent (f : Field) : outOf f .absent = absentOut f.req f.dflt := by
+  unfold outOf; cases f.ghost <;> rfl
+theorem outOf_dup {f : Field} (h : f.ghost = false) : outOf f .dup = .fail := by
+  simp [outOf, h]
+theorem outOf_one {f : Field} (h : f.ghost = false) (v : JVal) :
+    outOf f (.one v) =
+      if (f.nullAbsent && isNull v) = true then absentOut f.req f.dflt else
+      match project f.schema v with
+      | some nv => if f.skip nv = true then .nothing else .emit nv
+      | none => if f.lenient = true then absentOut f.req f.dflt else .fail := by
+  unfold outOf; rw [h]; rfl
+
+/-- The three ways a field comes to write a value / nothing. -/
+theorem outOf_cases (f : Field) (l : Look) (r : Out) (h : outOf f l = r) :
+    r = .fail ∨ absentOut f.req f.dflt = r ∨
+      ∃ v0 nv, f.ghost = false ∧ l = .one v0 ∧ (f.nullAbsent && isNull v0) = false ∧ project f.schema v0 = some nv ∧
+        r = (if f.skip nv = true then .nothing else .emit nv) := by
+  cases hg : f.ghost with
+  | true => right; left; rw [← h, outOf_ghost hg]
+  | false =>
+  cases l with
+  | dup => left; rw [← h, outOf_dup hg]
+  | absent => right; left; rw [← h, outOf_absent]
+  | one v0 =>
+    rw [outOf_one hg] at h
+    by_cases hc : (f.nullAbsent && isNull v0) = true
+    · rw [if_pos hc] at h; exact .inr (.inl h)
+    · rw [if_neg hc] at h
+      cases hp : project f.schema v0 with
+      | none =>
+        rw [hp] at h
+        by_cases hl : f.lenient = true
+        · rw [if_pos hl] at h; exact .inr (.inl h)
+        · rw [if_neg hl] at h; exact .inl h.symm
+      | some nv =>
+        rw [hp] at h
+        exact .inr (.inr ⟨v0, nv, rfl, rfl, by simpa using hc, hp, h.symm⟩)
+
+/-- Re-reading what a field wrote gives the same contribution. -/
+theorem outOf_reread {f : Field} (hok : f.Ok)
+    (hidem : ∀ v v', project f.schema v = some v' → project f.schema v' = some v')
+    (hnull : ∀ v, project f.schema v = some .null → v = .null) (l : Look) :
+    (∀ v, outOf f l = .emit v → outOf f (.one v) = .emit v) ∧
+    (outOf f l = .nothing → outOf f .absent = .nothing) := by
+  have hdflt : ∀ d, absentOut f.req f.dflt = .emit d → outOf f (.one d) = .emit d := by
+    intro d hd
+    obtain ⟨_, hd2⟩ := absentOut_emit.mp hd
+    cases hg : f.ghost with
+    | true => rw [outOf_ghost hg]; exact hd
+    | false =>
+    rw [outOf_one hg]
+    by_cases hc : (f.nullAbsent && isNull d) = true
+    · rw [if_pos hc]; exact hd
+    · rw [if_neg hc]
+      rcases hok.2 d hd2 with ⟨h1, h2⟩ | h
+      · subst h2; simp [h1, isNull] at hc
+      · rw [h]
+        have : f.skip d = false := hok.1 (.inr (by rw [hd2]; rfl)) d
+        simp [this]
+  have hskip : ∀ nv, f.skip nv = true → absentOut f.req f.dflt = .nothing := by
+    intro nv hs
+    apply absentOut_omit.mpr
+    constructor
+    · cases hr : f.req with
+      | false => rfl
+      | true => have := hok.1 (.inl hr) nv; rw [hs] at this; cases this
+    · cases hdf : f.dflt with
+      | none => rfl
+      | some d => have := hok.1 (.inr (by rw [hdf]; rfl)) nv; rw [hs] at this; cases this
+  constructor
+  · intro v h
+    rcases outOf_cases f l _ h with h1 | h1 | ⟨v0, nv, hg, _, hc, hp, hr⟩
+    · cases h1
+    · exact hdflt v h1
+    · by_cases hs : f.skip nv = true
+      · rw [if_pos hs] at hr; cases hr
+      · rw [if_neg hs] at hr
+        simp only [Out.emit.injEq] at hr
+        subst hr
+        have hc' : ¬ (f.nullAbsent && isNull v) = true := by
+          intro hcn
+          simp only [Bool.and_eq_true] at hcn
+          have hv : v = .null := by
+            cases v <;> simp [isNull] at hcn ⊢
+          subst hv
+          have := hnull v0 hp
+          subst this
+          simp [hcn.1, isNull] at hc
+        rw [outOf_one hg, if_neg hc', hidem v0 v hp]
+        simp [hs]
+  · intro h
+    rw [outOf_absent]
+    rcases outOf_cases f l _ h with h1 | h1 | ⟨v0, nv, _, _, hc, hp, hr⟩
+    · cases h1
+    · exact h1
+    · by_cases hs : f.skip nv = true
+      · exact hskip nv hs
+      · rw [if_neg hs] at hr; cases hr
+
+/-! ### `null` comes only from `null` -/
+
+theorem project_scalar (norm : JVal → Option JVal) (v : JVal) :
+    project (.scalar norm) v =
+      if isScalar v = true then
+        (match norm v with
+         | some b => if isScalar b = true then some b else none
+         | none => none)
+      else none := by
+  rw [project]; rfl
+
+theorem project_scalar_some {norm : JVal → Option JVal} {v v' : JVal} (h : project (.scalar norm) v = some v') :
+    isScalar v = true ∧ norm v = some v' ∧ isScalar v' = true := by
+  rw [project_scalar] at h
+  by_cases h1 : isScalar v = true
+  · rw [if_pos h1] at h
+    cases hn : norm v with
+    | none => rw [hn] at h; cases h
+    | some b =>
+      rw [hn] at h
+      simp only at h
+      by_cases h2 : isScalar b = true
+      · rw [if_pos h2] at h
+        simp only [Option.some.injEq] at h
+        subst h
+        exact ⟨h1, rfl, h2⟩
+      · rw [if_neg h2] at h; cases h
+  · rw [if_neg h1] at h; cases h
+
+theorem project_ne_null : ∀ (s : Schema), WF s → ∀ (v : JVal), project s v = some .null → v = .null := by
+  intro s
+  induction s using Schema.ind with
+  | any => intro _ v h; rw [project] at h; exact serdeValue_null (Option.some.inj h)
+  | scalar n =>
+    intro hwf v h
+    cases hwf with
+    | scalar _ hnull => exact hnull v (project_scalar_some h).2.1
+  | arr e _ =>
+    intro _ v h
+    cases v <;> simp only [project, reduceCtorEq] at h
+    split at h <;> simp at h
+  | map ok s _ =>
+    intro _ v h
+    cases v <;> simp only [project, reduceCtorEq] at h
+    split at h <;> simp at h
+  | obj fields keep _ =>
+    intro _ v h
+    cases v <;> simp only [project, reduceCtorEq] at h
+    split at h <;> simp at h
+  | nullOr s ih =>
+    intro hwf v h
+    cases hwf with
+    | nullOr hs =>
+    cases v with
+    | null => rfl
+    | _ => rw [project_nullOr _ _ (by intro e; cases e)] at h; exact ih hs _ h
+  | tagged tag cases ih =>
+    intro hwf v h
+    cases hwf with
+    | tagged hsub _ =>
+    cases v with
+    | obj o =>
+      rw [project_tagged] at h
+      cases ht : tagOf tag o with
+      | none => rw [ht] at h; cases h
+      | some t =>
+        rw [ht] at h
+        simp only at h
+        cases hf : cases.find? (fun c => c.label == t) with
+        | none => rw [hf] at h; cases h
+        | some c =>
+          rw [hf] at h
+          exact ih c (List.mem_of_find?_eq_some hf) (hsub c (List.mem_of_find?_eq_some hf)) _ h
+    | _ => simp [project] at h
+
+/-! ### Fixpoint -/
+
+/-- The entry reader of a `BTreeMap<K, V>`. -/
+def mapEntry (ok : Str → Bool) (s : Schema) (kv : Str × JVal) : Option (Str × JVal) :=
+  if ok kv.1 then (match project s kv.2 with | some w => some (kv.1, w) | none => none) else none
+
+theorem project_map (ok : Str → Bool) (s : Schema) (kvs : List (Str × JVal)) :
+    project (.map ok s) (.obj kvs) =
+      match allSome (kvs.map (mapEntry ok s)) with
+      | some l => some (.obj (Obj.ofList l))
+      | none => none := by
+  rw [project]; rfl
+
+theorem mapEntry_some {ok : Str → Bool} {s : Schema} {kv e : Str × JVal} (h : mapEntry ok s kv = some e) :
+    ok kv.1 = true ∧ e.1 = kv.1 ∧ project s kv.2 = some e.2 := by
+  unfold mapEntry at h
+  by_cases hk : ok kv.1 = true
+  · rw [if_pos hk] at h
+    cases hp : project s kv.2 with
+    | none => rw [hp] at h; cases h
+    | some w => rw [hp] at h; simp only [Option.some.injEq] at h; subst h; exact ⟨hk, rfl, rfl⟩
+  · rw [if_neg hk] at h; cases h
+
+/-- The struct case of the fixpoint theorem, from the fixpoint property of the fields' types. -/
+theorem obj_idem {fields : List Field} {keep : Bool}
+    (hsub : ∀ f ∈ fields, WF f.schema) (hok : ∀ f ∈ fields, f.Ok) (hd : Distinct fields)
+    (ih : ∀ f ∈ fields, ∀ v v', project f.schema v = some v' → project f.schema v' = some v')
+    {o : Obj} {v' : JVal} (h : project (.obj fields keep) (.obj o) = some v') :
+    project (.obj fields keep) v' = some v' := by
+  rw [project_obj'] at h
+  cases hc : collect (outs fields o) with
+  | none => rw [hc] at h; cases h
+  | some out =>
+    rw [hc] at h
+    simp only [Option.some.injEq] at h
+    subst h
+    generalize hrest : (if keep = true then Obj.ofList (serdeValueO (o.filter (fun e => !known fields e.1))) else []) = rest
+    -- the kept entries: unknown keys, already maps, sorted
+    have hrest_unknown : ∀ e ∈ rest, known fields e.1 = false := by
+      intro e he
+      cases keep with
+      | false => simp at hrest; subst hrest; cases he
+      | true =>
+        simp only [if_true] at hrest
+        subst hrest
+        have h1 := mem_ofList he
+        rw [serdeValueO_eq_map, List.mem_map] at h1
+        obtain ⟨e0, he0, rfl⟩ := h1
+        have := (List.mem_filter.mp he0).2
+        simpa using this
+    have hrest_fix : (if keep = true then Obj.ofList (serdeValueO (rest.filter (fun e => !known fields e.1))) else []) = rest := by
+      cases keep with
+      | false => simp at hrest ⊢; exact hrest
+      | true =>
+        simp only [if_true] at hrest ⊢
+        have hf : rest.filter (fun e => !known fields e.1) = rest :=
+          List.filter_eq_self.mpr (fun e he => by simp [hrest_unknown e he])
+        rw [hf, ← hrest]
+        have hfix : ∀ e ∈ Obj.ofList (serdeValueO (o.filter (fun e => !known fields e.1))), serdeValue e.2 = e.2 :=
+          fun e he => serdeValueO_idem _ e (mem_ofList he)
+        rw [serdeValueO_fix hfix, ofList_of_sorted (ofList_sorted _)]
+    have hout_known : ∀ e ∈ out, known fields e.1 = true := by
+      intro e he
+      obtain ⟨g, hg, hn, _⟩ := out_key_is_name hc e he
+      exact known_of_mem hg (hn ▸ spelledBy_self g)
+    rw [project_obj']
+    -- every field reads back what it wrote
+    have hlook : ∀ f ∈ fields, outOf f (f.look (out ++ rest)) = outOf f (f.look o) := by
+      intro f hf
+      have hr : rest.filter (fun e => f.spelledBy e.1) = [] := by
+        rw [List.filter_eq_nil_iff]
+        intro e he hsp
+        have := known_of_mem hf hsp
+        rw [hrest_unknown e he] at this; cases this
+      have hre := outOf_reread (hok f hf) (ih f hf) (project_ne_null f.schema (hsub f hf)) (f.look o)
+      rw [look_append, hr, List.append_nil, filter_out_self hd hc hf]
+      cases hof : outOf f (f.look o) with
+      | fail => exact absurd hof (collect_no_fail hc (f.name, _) (List.mem_map.mpr ⟨f, hf, rfl⟩))
+      | nothing => exact hre.2 hof
+      | emit v => exact hre.1 v hof
+    have houts : outs fields (out ++ rest) = outs fields o :=
+      List.map_congr_left (fun f hf => by rw [hlook f hf])
+    rw [houts, hc]
+    simp only
+    have hf1 : (out ++ rest).filter (fun e => !known fields e.1) = rest.filter (fun e => !known fields e.1) := by
+      rw [List.filter_append]
+      have : out.filter (fun e => !known fields e.1) = [] := by
+        rw [List.filter_eq_nil_iff]
+        intro e he
+        simp [hout_known e he]
+      rw [this, List.nil_append]
+    rw [hf1, hrest_fix]
+
+theorem tagOf_eq_some {tag : Str} {o : Obj} {t : Str} (h : tagOf tag o = some t) :
+    ∃ e, o.filter (fun e => e.1 == tag) = [e] ∧ e.2 = .str t := by
+  unfold tagOf at h
+  match hf : o.filter (fun e => e.1 == tag) with
+  | [] => rw [hf] at h; simp [pick] at h
+  | [e] =>
+    rw [hf] at h
+    simp only [pick] at h
+    refine ⟨e, hf, ?_⟩
+    cases h2 : e.2 <;> rw [h2] at h <;> simp at h
+    rw [h]
+  | _ :: _ :: _ => rw [hf] at h; simp [pick] at h
+
+/-- A case's struct writes its discriminator, and writes it once. -/
+theorem tagFixed_out {tag label : Str} {s : Schema} (hwf : WF s) (htf : TagFixed tag label s)
+    {o : Obj} {v' : JVal} (h : project s (.obj o) = some v') :
+    ∃ o', v' = .obj o' ∧ tagOf tag o' = some label := by
+  obtain ⟨fields, keep, rfl, f, hf, hname, hreq, hgh, norm, hs, hnorm⟩ := htf
+  cases hwf with
+  | obj _ hok hd =>
+    rw [project_obj'] at h
+    cases hc : collect (outs fields o) with
+    | none => rw [hc] at h; cases h
+    | some out =>
+      rw [hc] at h
+      simp only [Option.some.injEq] at h
+      subst h
+      refine ⟨_, rfl, ?_⟩
+      -- the discriminator field wrote `label`
+      have hemit : outOf f (f.look o) = .emit (.str label) := by
+        have hnf := collect_no_fail hc (f.name, _) (List.mem_map.mpr ⟨f, hf, rfl⟩)
+        rcases outOf_cases f (f.look o) _ rfl with h1 | h1 | ⟨v0, nv, _, _, _, hp, hr⟩
+        · exact absurd h1 hnf
+        · unfold absentOut at h1
+          rw [hreq] at h1
+          exact absurd h1.symm hnf
+        · have hsk : f.skip nv = false := (hok f hf).1 (.inl hreq) nv
+          rw [hr, hsk]
+          simp only [Bool.false_eq_true, if_false, Out.emit.injEq]
+          rw [hs] at hp
+          exact hnorm v0 nv (project_scalar_some hp).2.1
+      have hfilt : ∀ l : Obj, l.filter (fun e => e.1 == tag) = l.filter (fun e => e.1 == f.name) := by
+        intro l; rw [hname]
+      -- keys equal to `tag` among the written fields: exactly that one
+      have h1 : out.filter (fun e => e.1 == tag) = [(f.name, .str label)] := by
+        have hself := filter_out_self hd hc hf
+        rw [hemit] at hself
+        simp only at hself
+        rw [← hself]
+        apply List.filter_congr
+        intro e he
+        obtain ⟨g, hg, hn, _⟩ := out_key_is_name hc e he
+        by_cases hgf : e.1 = tag
+        · have : f.spelledBy e.1 = true := by rw [hgf, ← hname]; exact spelledBy_self f
+          rw [this]; simp [hgf]
+        · have h2 : (e.1 == tag) = false := by simpa using hgf
+          rw [h2]
+          symm
+          -- `e.1` is the name of another field `g`, which `f` does not spell
+          by_cases hfg : g = f
+          · subst hfg; exact absurd (hn.symm.trans hname) hgf
+          · have := distinct_ne hd hf hg (fun e => hfg e.symm)
+            rw [hn] at this; exact this
+      have h2 : ∀ rest : Obj, (∀ e ∈ rest, known fields e.1 = false) → rest.filter (fun e => e.1 == tag) = [] := by
+        intro rest hr
+        rw [List.filter_eq_nil_iff]
+        intro e he hk
+        have : known fields e.1 = true := known_of_mem hf (by
+          have : e.1 = tag := by simpa using hk
+          rw [this, ← hname]; exact spelledBy_self f)
+        rw [hr e he] at this; cases this
+      have hrest : ∀ e ∈ (if keep = true then Obj.ofList (serdeValueO (o.filter (fun e => !known fields e.1))) else []),
+          known fields e.1 = false := by
+        intro e he
+        cases keep with
+        | false => simp at he
+        | true =>
+          simp only [if_true] at he
+          have h1 := mem_ofList he
+          rw [serdeValueO_eq_map, List.mem_map] at h1
+          obtain ⟨e0, he0, rfl⟩ := h1
+          simpa using (List.mem_filter.mp he0).2
+      unfold tagOf
+      rw [List.filter_append, h1, h2 _ hrest]
+      rfl
+
+theorem project_idem : ∀ (s : Schema), WF s → ∀ v v', project s v = some v' → project s v' = some v' := by
+  intro s
+  induction s using Schema.ind with
+  | any =>
+    intro _ v v' h
+    rw [project] at h ⊢
+    simp only [Option.some.injEq] at h
+    subst h
+    rw [serdeValue_idem]
+  | scalar n =>
+    intro hwf v v' h
+    cases hwf with
+    | scalar hn _ =>
+      obtain ⟨_, h2, h3⟩ := project_scalar_some h
+      rw [project_scalar, if_pos h3, hn v v' h2]
+      simp [h3]
+  | arr e ih =>
+    intro hwf v v' h
+    cases hwf with
+    | arr he =>
+      cases v <;> simp only [project, reduceCtorEq] at h
+      rename_i xs
+      cases ha : allSome (xs.map (project e)) with
+      | none => rw [ha] at h; cases h
+      | some ys =>
+        rw [ha] at h
+        simp only [Option.some.injEq] at h
+        subst h
+        rw [project]
+        have : allSome (ys.map (project e)) = some ys := by
+          apply allSome_map_fix
+          intro y hy
+          obtain ⟨x, _, hxy⟩ := forall₂_mem_right (allSome_map_eq_some ha) y hy
+          exact ih he x y hxy
+        rw [this]
+  | map ok s ih =>
+    intro hwf v v' h
+    cases hwf with
+    | map hs =>
+      cases v with
+      | null | bool _ | int _ | float | str _ | arr _ => simp [project] at h
+      | obj kvs =>
+      rw [project_map] at h
+      cases ha : allSome (kvs.map (mapEntry ok s)) with
+      | none => rw [ha] at h; cases h
+      | some l =>
+        rw [ha] at h
+        simp only [Option.some.injEq] at h
+        subst h
+        rw [project_map]
+        have : allSome ((Obj.ofList l).map (mapEntry ok s)) = some (Obj.ofList l) := by
+          apply allSome_map_fix
+          intro e he
+          obtain ⟨kv, _, hkv⟩ := forall₂_mem_right (allSome_map_eq_some ha) e (mem_ofList he)
+          obtain ⟨h1, h2, h3⟩ := mapEntry_some hkv
+          unfold mapEntry
+          rw [h2, if_pos h1, ih hs _ _ h3]
+          simp only
+          rw [← h2]
+        rw [this]
+        simp only
+        rw [ofList_of_sorted (ofList_sorted _)]
+  | obj fields keep ih =>
+    intro hwf v v' h
+    cases hwf with
+    | obj hsub hok hd =>
+      cases v with
+      | obj o => exact obj_idem hsub hok hd (fun f hf => ih f hf (hsub f hf)) h
+      | _ => simp [project] at h
+  | nullOr s ih =>
+    intro hwf v v' h
+    cases hwf with
+    | nullOr hs =>
+      by_cases hv : v = .null
+      · subst hv
+        rw [project_nullOr_null] at h
+        simp only [Option.some.injEq] at h
+        subst h
+        exact project_nullOr_null s
+      · rw [project_nullOr _ _ hv] at h
+        by_cases hv' : v' = .null
+        · subst hv'; exact project_nullOr_null s
+        · rw [project_nullOr _ _ hv']; exact ih hs _ _ h
+  | tagged tag cases ih =>
+    intro hwf v v' h
+    cases hwf with
+    | tagged hsub htf =>
+      cases v with
+      | null | bool _ | int _ | float | str _ | arr _ => simp [project] at h
+      | obj o =>
+      rw [project_tagged] at h
+      cases ht : tagOf tag o with
+      | none => rw [ht] at h; cases h
+      | some t =>
+        rw [ht] at h
+        simp only at h
+        cases hf : cases.find? (fun c => c.label == t) with
+        | none => rw [hf] at h; cases h
+        | some c =>
+          rw [hf] at h
+          simp only at h
+          have hc := List.mem_of_find?_eq_some hf
+          have hlab : c.label = t := by simpa using List.find?_some hf
+          obtain ⟨o', rfl, ho'⟩ := tagFixed_out (hsub c hc) (htf c hc) h
+          rw [project_tagged, ho', hlab]
+          simp only
+          rw [hf]
+          exact ih c hc (hsub c hc) _ _ h
+
 end Ruma.ContentSchema
